@@ -163,6 +163,9 @@ func (e *Exec) intrinsic(s *State, fr *Frame, fn *ssa.Function, args []Value, in
 			delete(e.havoc, name)
 		}
 		return ret(s)
+	case "StubCRC":
+		e.stubCRC = term(args[0]).isTrue()
+		return ret(s)
 	case "HavocUsed":
 		return ret(s, B(e.havocUsed[e.strArg(args[0], "vrt.HavocUsed")]))
 	case "UF32":
@@ -331,6 +334,15 @@ func (e *Exec) callFn(s *State, fr *Frame, fn *ssa.Function, args []Value, in *s
 		return e.intrinsic(s, fr, fn, args, in)
 	}
 	name := fn.String()
+	if e.stubCRC && name == "github.com/Comcast/gots/v2.ComputeCRC" {
+		// uninterpreted summary: the four big-endian bytes of UF(input)
+		ts, ok := e.byteSlice(s, args[0])
+		if !ok {
+			panic(engineErr("stubbed ComputeCRC on a slice of symbolic length"))
+		}
+		u := e.ufBytes("crc", ts)
+		return ret(s, e.newSlice(s, []*Term{Extract(u, 31, 24), Extract(u, 23, 16), Extract(u, 15, 8), Extract(u, 7, 0)}))
+	}
 	switch name {
 	case "errors.New":
 		opaqueN++
